@@ -10,6 +10,7 @@ theorem timeout_wrappers_shape :
     timeout_wrappers = [("tell_with_timeout", "tell", true, true, true, true, true),
                         ("ask_with_timeout", "ask", true, true, true, true, true),
                         ("blocking_tell_with_timeout_impl", "tell", true, true, true, true, true),
-                        ("blocking_ask_with_timeout_impl", "ask", true, true, true, true, true)] := rfl
+                        ("blocking_ask_with_timeout_impl", "ask", true, true, true, true, true)] ∧
+    timeout_wrappers_exact = [true, true] := ⟨rfl, rfl⟩
 
 end Rsactor.Ties
